@@ -111,7 +111,8 @@ fn configure(mut c: Cuc, plan: &Plan) -> Cuc {
     c = c.steps(runa::build_collection(plan));
     match cfg.builder_concurrency {
         crate::plan::BuilderLimit::Unset => {}
-        crate::plan::BuilderLimit::Unlimited => c = c.max_concurrent_scenarios(None),
+        // (after an earlier finite limit: the later call must win)
+        crate::plan::BuilderLimit::Unlimited => c = c.max_concurrent_scenarios(2).max_concurrent_scenarios(None),
         crate::plan::BuilderLimit::Limit(n) => c = c.max_concurrent_scenarios(n),
     }
     if let Some(n) = cfg.builder_retries {
